@@ -94,6 +94,26 @@ pub fn drive_c06(a: &Args, out: &mut Out) {
             emit_tokens(&b, out);
         }
     }
+    // long inputs: an interesting sequence placed at every offset around power-of-two block
+    // boundaries (scanners that work block-wise or look ahead must not depend on the position)
+    let seqs: [&str; 7] = ["\r\n", "\r", "\n", " \u{a0} ", "\u{e9}", "\r\n\r\n", "\r\r\n"];
+    let blocks: &[usize] = if thorough { &[16, 32, 64, 128, 256, 512, 1024, 2048, 4096] } else { &[64, 256, 1024, 4096] };
+    for &b in blocks {
+        for mult in 1..=(if b <= 256 { 3 } else { 1 }) {
+            for d in 0..5usize {
+                let k = (b * mult + d).saturating_sub(3);
+                let sq = seqs[(b + mult + d) % seqs.len()];
+                let mut t = String::new();
+                for i in 0..k {
+                    t.push(if i % 17 == 16 { ' ' } else { 'x' });
+                }
+                t.push_str(sq);
+                t.push_str("yz ");
+                t.push_str(sq);
+                emit_tokens(t.as_bytes(), out);
+            }
+        }
+    }
     // every invalid symbol between every pair of a few valid ones
     for inv in textgen::invalid_symbols() {
         for l in ["", "a", "\n", "\r", " ", "\u{e9}"] {
@@ -274,6 +294,21 @@ pub fn drive_c04(a: &Args, out: &mut Out) {
             let case = out.next_case();
             out.emit(&big_changes_record(case, alg, &x, &y));
         }
+    }
+    // more than 100 tokens per side (the integer-mapping path), few edits over small alphabets
+    let nlong = if a.thorough() { 600 } else { 90 };
+    for i in 0..nlong {
+        let kind = ["lines", "words", "chars"][i % 3];
+        let ntok = rng.range(101, 170);
+        let alpha = *rng.pick(&[2usize, 3, 5, 30]);
+        let x = crate::fam_text2::long_text(&mut rng, ntok, alpha, kind);
+        let e = if i % 2 == 0 { 1 } else { rng.range(1, 5) };
+        let y = crate::fam_text2::mutate_text(&mut rng, &x, kind, e, alpha);
+        let alg = ALGS[i % 3];
+        let case = out.next_case();
+        out.emit(&changes_record::<str>(case, alg, kind, "str", &x, &y));
+        let case = out.next_case();
+        out.emit(&changes_record::<[u8]>(case, ALGS[(i + 1) % 3], kind, "bytes", y.as_bytes(), x.as_bytes()));
     }
     let pairs = text_pairs(&mut rng, a.thorough(), true);
     for (i, (x, y)) in pairs.iter().enumerate() {
